@@ -1,0 +1,63 @@
+//go:build verif
+
+package graphsync
+
+import (
+	"github.com/ipfs/go-graphsync"
+
+	datatransfer "github.com/filecoin-project/go-data-transfer/v2"
+)
+
+// VerifChannel is a read-only snapshot of one tracked data-transfer channel
+// (verification hook, only built with -tags verif).
+type VerifChannel struct {
+	IsOpen             bool
+	HasRequestID       bool
+	RequestID          graphsync.RequestID
+	RequesterCancelled bool
+	XferStarted        bool
+	PendingExtensions  int
+	StoreRegistered    bool
+	MaxLinks           uint64
+}
+
+// VerifSnapshot returns the tracked channels and the request-id routing table, each read
+// under the lock the transport itself uses. When a channel's own lock cannot be taken
+// without blocking, its entry is reported with Busy=true semantics by being absent from
+// the detailed map but present in Tracked.
+func (t *Transport) VerifSnapshot() (tracked []datatransfer.ChannelID, details map[datatransfer.ChannelID]VerifChannel, routes map[graphsync.RequestID]datatransfer.ChannelID) {
+	details = map[datatransfer.ChannelID]VerifChannel{}
+	routes = map[graphsync.RequestID]datatransfer.ChannelID{}
+	t.dtChannelsLk.RLock()
+	chans := make(map[datatransfer.ChannelID]*dtChannel, len(t.dtChannels))
+	for chid, ch := range t.dtChannels {
+		tracked = append(tracked, chid)
+		chans[chid] = ch
+	}
+	t.dtChannelsLk.RUnlock()
+	for chid, ch := range chans {
+		if !ch.lk.TryRLock() {
+			continue
+		}
+		vc := VerifChannel{
+			IsOpen:             ch.isOpen,
+			HasRequestID:       ch.requestID != nil,
+			RequesterCancelled: ch.requesterCancelled,
+			XferStarted:        ch.xferStarted,
+			PendingExtensions:  len(ch.pendingExtensions),
+		}
+		if ch.requestID != nil {
+			vc.RequestID = *ch.requestID
+		}
+		ch.lk.RUnlock()
+		ch.optionsLk.RLock()
+		vc.StoreRegistered = ch.storeRegistered
+		vc.MaxLinks = ch.maxLinksOption
+		ch.optionsLk.RUnlock()
+		details[chid] = vc
+	}
+	t.requestIDToChannelID.forEach(func(k graphsync.RequestID, _ bool, chid datatransfer.ChannelID) {
+		routes[k] = chid
+	})
+	return tracked, details, routes
+}
